@@ -13,6 +13,8 @@ package main
 import (
 	"crypto/sha256"
 	"fmt"
+	"os"
+	"runtime/pprof"
 	"sort"
 	"strconv"
 	"strings"
@@ -745,7 +747,11 @@ func permutations(n int) [][]int {
 // systematic: committee of 4, one faulty member (sends a wrong share, then a correct one), EVERY arrival order.
 func systematic(s *state, limit int) {
 	perms := permutations(5)
-	cnt := 0
+	type cfg struct {
+		kind string
+		evs  []string
+	}
+	var cfgs []cfg
 	for _, kind := range []string{"att", "exit", "contrib", "prop"} {
 		k := rootsOf(kind)
 		for badRoot := 0; badRoot < k; badRoot++ {
@@ -753,22 +759,29 @@ func systematic(s *state, limit int) {
 			for id := 1; id <= 3; id++ {
 				evs = append(evs, fmt.Sprintf("msg s=%d in=%d slot=0 sh=%s", id, id, shToks(k, func(int) byte { return 'g' })))
 			}
+			br := badRoot
 			evs = append(evs, fmt.Sprintf("msg s=4 in=4 slot=0 sh=%s", shToks(k, func(i int) byte {
-				if i == badRoot {
+				if i == br {
 					return 'w'
 				}
 				return 'g'
 			})))
 			evs = append(evs, fmt.Sprintf("msg s=4 in=4 slot=0 sh=%s", shToks(k, func(int) byte { return 'g' })))
-			for _, p := range perms {
-				if cnt >= limit {
-					return
-				}
-				cnt++
-				s.do(fmt.Sprintf("reset kind=%s n=4 dec=1", kind))
-				for _, x := range p {
-					s.do(evs[x])
-				}
+			cfgs = append(cfgs, cfg{kind, evs})
+		}
+	}
+	cnt := 0
+	// stride through the 120 orders so that a truncated run still spreads over all of them
+	for i := 0; i < len(perms); i++ {
+		p := perms[(i*37)%len(perms)]
+		for _, c := range cfgs {
+			if cnt >= limit {
+				return
+			}
+			cnt++
+			s.do(fmt.Sprintf("reset kind=%s n=4 dec=1", c.kind))
+			for _, x := range p {
+				s.do(c.evs[x])
 			}
 		}
 	}
@@ -777,6 +790,11 @@ func systematic(s *state, limit int) {
 func main() {
 	run := hx.Start()
 	defer run.Finish()
+	if pf := os.Getenv("VERIF_PROF"); pf != "" {
+		f, _ := os.Create(pf)
+		_ = pprof.StartCPUProfile(f)
+		defer pprof.StopCPUProfile()
+	}
 	s := &state{run: run}
 	if lines := run.ReplayLines(); lines != nil {
 		for _, l := range lines {
